@@ -54,6 +54,11 @@ def plan(tier, seed):
         for order in range(1, 7):
             for permute in (True, False):
                 cases.append(dict(key=f"ArbitraryOrderLagrange/order={order}/dim={dim}/permute={permute}", cls="ArbitraryOrderLagrange", kw=dict(order=order, dim=dim, permute=permute), cost=(order + 3) ** (2 * dim)))
+    # non-default reference interval (a, b) of the Lagrange element: the cell is [a, b]^dim
+    for dim in (1, 2):
+        for order in (1, 2, 3):
+            for interval in ([0.0, 1.0], [-2.0, 2.0], [1.0, 1.5]):
+                cases.append(dict(key=f"ArbitraryOrderLagrange/order={order}/dim={dim}/interval={interval}", cls="ArbitraryOrderLagrange", kw=dict(order=order, dim=dim, interval=interval), cost=(order + 3) ** (2 * dim)))
     return cases
 
 
@@ -130,9 +135,14 @@ def run(case):
 
     cls = case["cls"]
     key = case["key"]
-    el = getattr(fem.element, cls)(**case["kw"])
+    kwc = dict(case["kw"])
+    if "interval" in kwc:
+        kwc["interval"] = tuple(kwc["interval"])
+    el = getattr(fem.element, cls)(**kwc)
     if cls == "ArbitraryOrderLagrange":
         dim, D, lo, hi, kind, order, nnodal = case["kw"]["dim"], case["kw"]["order"], -1, 1, "Q", case["kw"]["order"], None
+        if "interval" in kwc:
+            lo, hi = kwc["interval"]
     else:
         dim, D, lo, hi, kind, order, nnodal = SPEC[cls]
     viol, nontrivial = [], []
